@@ -17,3 +17,43 @@ PROPS = {
         'assumptions': ['errors.New is an opaque non-nil error value'],
     },
 }
+
+
+# ---------------------------------------------------------------- shared rounding contract
+R_MAXJ = {64: 0, 128: 5, 192: 24, 256: 44}
+
+
+def r_jobs(widths, tier, seed=1, sample=None):
+    """R-contract jobs.  quick: boundary classes and a seeded sample of the rest; thorough: everything"""
+    import random
+    rng = random.Random(seed)
+    jobs = []
+    for w in widths:
+        maxj = R_MAXJ[w]
+        js = list(range(0, maxj + 1))
+        if tier == 'quick' and sample is not None and len(js) > sample:
+            keep = {0, 1, maxj}
+            rest = [j for j in js if j not in keep]
+            rng.shuffle(rest)
+            keep.update(rest[:max(0, sample - len(keep))])
+            js = sorted(keep)
+        for j in js:
+            jobs.append(('vh_reduce_normal', [w, j]))
+            jobs.append(('vh_reduce_subfar', [w, j]))
+            us = list(range(1, 38))
+            vs = list(range(1, 37)) if j == 0 else [1]
+            if tier == 'quick' and sample is not None:
+                us = sorted(set([1, 2, 34, 35, 36, 37] + rng.sample(us, 3)))
+                vs = sorted(set([1, 2, 34, 35, 36] + rng.sample(vs, 2))) if j == 0 else [1]
+            for u in us:
+                jobs.append(('vh_reduce_sub', [w, j, u]))
+            for v in vs:
+                jobs.append(('vh_reduce_over', [w, j, v]))
+            jobs.append(('vh_reduce_over', [w, j, 0]))
+    return jobs
+
+
+PROPS['R128'] = {'jobs': lambda tier, seed: r_jobs([128], tier, seed), 'validate': False}
+PROPS['R64'] = {'jobs': lambda tier, seed: r_jobs([64], tier, seed), 'validate': False}
+PROPS['R192'] = {'jobs': lambda tier, seed: r_jobs([192], tier, seed), 'validate': False}
+PROPS['R256'] = {'jobs': lambda tier, seed: r_jobs([256], tier, seed), 'validate': False}
